@@ -46,6 +46,10 @@ class SerFail(Exception):
     pass
 
 
+class CallerTrouble(Exception):
+    """What the caller is handling when it makes some of its logging calls."""
+
+
 class SerFailRuntime(RuntimeError):
     pass
 
@@ -207,8 +211,18 @@ class Run(object):
         from esim.sched import current_actor
         current_actor().call_lines = 0
         cur = self.stack[-1] if self.stack else None
+        # some logging calls are made from inside an except block of the caller (error-handling code that
+        # logs): the exception being handled there has nothing to do with the message
+        in_handler = self.cfg.get("p_handler", 0) and self.fault.chance(self.cfg["p_handler"], "in-handler")
         try:
-            result = call()
+            if in_handler:
+                rc.probe("logged_while_caller_handles_an_exception")
+                try:
+                    raise CallerTrouble("the caller's own problem, nid=%s" % nid)
+                except CallerTrouble:
+                    result = call()
+            else:
+                result = call()
         except (SimAbort, Violation):
             raise
         except AppError:
@@ -285,6 +299,16 @@ class Run(object):
                                 "serialization_failure does not describe message nid=%s: %r" % (nid, text))
         if not isinstance(tb.get("traceback"), str) or not isinstance(tb.get("reason"), str):
             raise Violation(("failure_reports", {"what": what}), "traceback message malformed: %r" % (tb,))
+        # ... "describing it": the traceback is about what went wrong with THIS message
+        if "the caller's own problem" in tb["reason"] or "CallerTrouble" in str(tb.get("exception")):
+            raise Violation(("failure_reports", {"what": "describes_other_exception"}),
+                            "%s nid=%s failed to serialize; the eliot:traceback logged for it describes %s: %r" % (
+                                what, nid, tb.get("exception"), tb["reason"][:120]))
+        if self.failed and not natural and not any(k in omitted for k in dkeys):
+            if not any(("serializer %s.%s failed" % (t_, k_)) in tb["reason"] for (t_, _kd, k_) in self.failed):
+                raise Violation(("failure_reports", {"what": "describes_other_exception"}),
+                                "%s nid=%s: serializer(s) %s failed, the eliot:traceback says %r" % (
+                                    what, nid, [x[2] for x in self.failed], tb["reason"][:160]))
         # placement: in the context current when the message was written.  For an end message written by
         # __exit__ that is the enclosing context or the ending action itself: which of the two is current
         # while a block is being left is not stated anywhere (C04 speaks of inside and of afterwards).
@@ -531,6 +555,7 @@ def draw_cfg(st):
         "p_omit": [0.0, 0.1, 0.3][st.choose(3, "p_omit")],
         "n_ops": 3 + st.choose(23, "n_ops"),
         "globals": bool(st.choose(2, "globals")),
+        "p_handler": [0.0, 0.3][st.choose(2, "p_handler")],
     }
 
 
